@@ -401,20 +401,37 @@ func (r *runner) runBlock(steps []Step) {
 	sort.Strings(kinds)
 	r.res.Triggers["blockkinds:"+strings.Join(kinds, "+")]++
 	if len(best.bad) > 0 {
-		d := fmt.Sprintf("concurrent block %v: under no order of the requests are the answers admissible; e.g. %s", kinds, firstAnswerProblem)
-		r.v("C09", "block-not-serializable", "%s", d)
-		r.v("C04", "answer-wrong-outcome", "%s", d)
-		if strings.Contains(strings.Join(kinds, "+"), "type_add") {
-			r.v("C10", "type-not-bijective", "%s", d)
-			r.v("C12", "type-registry", "%s", d)
-		}
-		for _, b := range best.bad {
-			if strings.HasPrefix(b, "C10/") || strings.HasPrefix(b, "C07/") || strings.HasPrefix(b, "C05/") || strings.HasPrefix(b, "C12/") {
-				parts := strings.SplitN(b, ": ", 2)
-				pr := strings.SplitN(parts[0], "/", 2)
-				r.v(pr[0], pr[1], "%s", d)
+		// No serial order explains the answers (for instance a joiner whose snapshot misses a
+		// member that was half way out). The properties quantified over schedules do not demand
+		// serializable answers: what they demand is checked without the model below (exactly one
+		// answer per request, registry beliefs, views against the server's own state, id
+		// ledger, deadlock). The model cannot follow from here; the scenario ends after this.
+		r.res.Stats["probe.block_answers_not_serializable"]++
+		r.res.Triggers["block_answers_not_serializable:"+strings.Join(kinds, "+")]++
+		r.desync = true
+		for _, q := range reqs {
+			if q.closes || q.p == nil || q.p.RID == 0 || q.c.Ended() {
+				continue
+			}
+			if before[q.st.Conn] == nil && q.st.Op != "join" && q.st.Op != "ping" {
+				continue
+			}
+			n := 0
+			for _, m := range q.c.Since() {
+				if m.ReqID == q.p.RID {
+					n++
+				}
+			}
+			if n == 0 {
+				r.v("C09", "request-unanswered", "%s by %s (request id %d) in concurrent block %v was never answered: %s", q.st.Op, q.c.Label, q.p.RID, kinds, strings.Join(r.w.sim.Describe(), "; "))
+			} else if n > 1 {
+				r.v("C09", "request-answered-twice", "%s by %s (request id %d) in concurrent block %v was answered %d times", q.st.Op, q.c.Label, q.p.RID, kinds, n)
 			}
 		}
+		r.inBlock = true
+		r.checkState(&Outcome{Kind: "block"})
+		r.inBlock = false
+		r.annotateBlock(kinds, reqs, "no serial order explains the answers")
 		return
 	}
 	// adopt the order that explains the observations best
@@ -445,12 +462,7 @@ func (r *runner) runBlock(steps []Step) {
 	r.inBlock = true
 	r.checkState(blk)
 	r.inBlock = false
-	for i := range r.res.Violations {
-		v := &r.res.Violations[i]
-		if v.Step == r.stepIdx && !strings.Contains(v.Detail, "concurrent block") {
-			v.Detail = fmt.Sprintf("after concurrent block %v (order %v explains the answers): %s", kinds, best.order, v.Detail)
-		}
-	}
+	r.annotateBlock(kinds, reqs, fmt.Sprintf("order %v explains the answers", best.order))
 	for _, q := range reqs {
 		if q.closes || q.c.Ended() {
 			r.checkEnded(q.c, "block")
@@ -588,4 +600,28 @@ func (r *runner) control(st *Step, c *Client) {
 		r.quiesce()
 	}
 	_ = time.Second
+}
+
+// annotateBlock prefixes the violations found right after a concurrent block with the block's
+// kinds, and marks view violations of an observer that joined during the block (the known
+// stale-snapshot window) so that they can be told apart from every other view violation.
+func (r *runner) annotateBlock(kinds []string, reqs []*blockReq, note string) {
+	joiners := map[string]bool{}
+	for _, q := range reqs {
+		if q.st.Op == "join" {
+			joiners[q.c.Label] = true
+		}
+	}
+	for i := range r.res.Violations {
+		v := &r.res.Violations[i]
+		if v.Step != r.stepIdx || strings.Contains(v.Detail, "concurrent block") {
+			continue
+		}
+		who := strings.TrimSuffix(strings.Fields(v.Detail + " x")[0], "'s")
+		mark := ""
+		if joiners[who] && strings.HasPrefix(v.Rule, "view-") {
+			mark = " [observer joined during the block]"
+		}
+		v.Detail = fmt.Sprintf("after concurrent block %v (%s): %s%s", kinds, note, v.Detail, mark)
+	}
 }
